@@ -122,6 +122,39 @@ def run(ctx, deep=False):
         g, a, rh, why, got = worst
         ctx.violation("C18:search", "discovery (AirTouch %d): %s" % (g, why), kind="history", scenario=[g, fmt(a), rh],
                       implementation_output=got, spec_verdict=why)
+    # factory.connect(): a client for a known console - the given identity is kept, the right generation is built
+    import asyncio
+    import pyairtouch
+    import pyairtouch.api as A
+
+    async def _connect_cases():
+        out = []
+        for model, cls, port in ((A.AirTouchModel.AIRTOUCH_4, "AirTouch4", 9004), (A.AirTouchModel.AIRTOUCH_5, "AirTouch5", 9005)):
+            for (aid, name, serial) in (("ID7", "Upstairs", "S-77"), ("", "", ""), (None, None, None), ("0", "My, Home", "a b")):
+                at = pyairtouch.connect(model, "10.1.2.3", port, airtouch_id=aid, name=name, serial=serial)
+                out.append((model.name, port, aid, name, serial, type(at).__name__, at.model.name, at.host, at.airtouch_id, at.name, at.serial,
+                            getattr(getattr(at, "_socket", None), "port", None)))
+        return out
+    loop = asyncio.new_event_loop()
+    try:
+        connect_cases = loop.run_until_complete(_connect_cases())
+    finally:
+        loop.close()
+    for (model, port, aid, name, serial, cls, m2, host, aid2, name2, serial2, sport) in connect_cases:
+        ctx.case(("connect", model, aid, name, serial))
+        why = None
+        if cls != ("AirTouch4" if model == "AIRTOUCH_4" else "AirTouch5") or m2 != model:
+            why = "a %s object reporting model %s" % (cls, m2)
+        elif host != "10.1.2.3" or sport != port:
+            why = "host %r port %r" % (host, sport)
+        elif aid and aid2 != aid or name and name2 != name or serial and serial2 != serial:
+            why = "identity (%r, %r, %r) became (%r, %r, %r)" % (aid, name, serial, aid2, name2, serial2)
+        elif not aid2 or not name2 or not serial2:
+            why = "a missing identity field is left empty (%r, %r, %r): the documentation promises generated values" % (aid2, name2, serial2)
+        if why:
+            ctx.violation("C18:connect", "pyairtouch.connect(%s, '10.1.2.3', %d, airtouch_id=%r, name=%r, serial=%r) returns %s" % (model, port, aid, name, serial, why),
+                          kind="input", scenario=["connect", model, aid, name, serial], implementation_output=why, spec_verdict="the given identity, the model's class, host and port")
+            break
     # factory: returned clients
     for _ in range(60 if thorough else 12):
         a4 = [(rng.choice([1, 2, 5]), valid(4, rng))] if rng.random() < 0.7 else []
